@@ -189,6 +189,16 @@ func (g *Gen) unop(x *ssa.UnOp) {
 		if c := g.typeInv(v, x.Type(), old); c != "true" {
 			g.assumeAlways(c)
 		}
+		if gl, isGlobal := x.X.(*ssa.Global); isGlobal && g.sortOf(x.Type()) == "Int" {
+			// sentinel errors (io.EOF, io.ErrUnexpectedEOF, common.ErrIrregularData, ...): package-level variables of
+			// type error named Err* / EOF are initialised with errors.New and never reassigned
+			if n, ok := x.Type().(*types.Named); ok && n.Obj().Name() == "error" && n.Obj().Pkg() == nil {
+				if strings.HasPrefix(gl.Name(), "Err") || gl.Name() == "EOF" {
+					g.assumeAlways(fmt.Sprintf("(not (= %s 0))", v))
+					g.assumptions["sentinel error variables (package-level Err* / EOF of type error) hold their initial non-nil value"] = true
+				}
+			}
+		}
 		if !old && l.kind == "heap" && !l.obj {
 			if cond := g.entryValueCond(g.heapGet(l.comp), l.ref); cond != "" {
 				if c := g.typeInv(v, x.Type(), true); c != "true" {
@@ -921,14 +931,16 @@ func arithFree(e *Expr) bool {
 		return true
 	}
 	switch e.Op {
-	case "id", "nil", "true", "false", "sel":
+	case "id", "nil", "true", "false", "sel", "lit":
 	case "un":
 		if e.Val != "!" {
 			return false
 		}
 	case "bin":
+		// comparisons of machine values mean the same in both modes (int mode models every conversion with
+		// its wrap-around); sums, differences, products do not (a contract sum is mathematical in int mode)
 		switch e.Val {
-		case "&&", "||", "==>", "<==>", "==", "!=":
+		case "&&", "||", "==>", "<==>", "==", "!=", "<", "<=", ">", ">=":
 		default:
 			return false
 		}
@@ -937,9 +949,11 @@ func arithFree(e *Expr) bool {
 			return false
 		}
 		switch e.Args[0].Val {
-		case "fresh", "whole", "typeof", "typetag", "old":
+		case "fresh", "whole", "typeof", "typetag", "old", "len", "cap":
 		default:
-			return false
+			if _, isCast := castTypes[e.Args[0].Val]; !isCast {
+				return false
+			}
 		}
 	default:
 		return false
